@@ -56,6 +56,11 @@ ATOM_VARIANTS = {
 
 
 def build_text(case):
+    if case.get("rhs_ops"):
+        rhs = case["rhs_ops"]
+        if not case["intercept"]:
+            rhs = "0 + " + rhs
+        return "y ~ " + rhs
     atoms = case.get("atoms", {})
     terms = [":".join(atoms.get(v, "C(k)" if v == "k" else v) for v in t) for t in case["terms"]]
     rhs = " + ".join(terms)
@@ -193,6 +198,25 @@ def run_shard(i, n, tier, seed, m):
     rng = random.Random(seed * 1000003 + i * 31 + 3)
     nrand = (4000 if tier == "quick" else 60000) // n
     pool_vars = ["f", "g", "h", "k", "x", "z"]
+    from workloads import designs as D
+
+    for j in range(nrand // 2):
+        # operator-written families (+ : * / **): the same component objects may be reused by the
+        # term algebra in several terms; the expected terms come from the reference algebra
+        vars_ = rng.sample(pool_vars, rng.choice([2, 3, 3, 4]))
+        atoms = {v: (rng.choice([a for a in ATOM_VARIANTS[v] if "{" not in a]) if rng.random() < 0.3 else
+                     ("C(k)" if v == "k" else v)) for v in vars_}
+        back = {a: v for v, a in atoms.items()}
+        text = D.op_expression(rng, [atoms[v] for v in vars_])
+        fam = [[back[nm] for nm in t] for t in D.expand_rhs(text)]
+        if not fam or not any(v in CAT for t in fam for v in t):
+            continue
+        case = {"terms": fam, "intercept": rng.random() < 0.6, "atoms": atoms, "rhs_ops": text}
+        case = finish_case(case, rng.randrange(10 ** 9), seed)
+        full = build_text(case)
+        m.case({**case, "text": full}, canon=[full, case["levels"]], nontrivial=True)
+        m.cls("operator-written")
+        judge(case, m)
     for j in range(nrand):
         nv = rng.choice([3, 4, 4, 5])
         vars_ = rng.sample(pool_vars, nv)
